@@ -23,7 +23,8 @@ RULE = ('every exception class of pyramid.httpexceptions x detail/comment/explan
         'NewResponse subscriber or a response callback that re-labels the response before it is called), plus histories (one exception object called 2-3 times under different Accept headers / environs, '
         'incl. a failing first call), plus the constructor\'s other documented keywords: json_formatter= (formatters building '
         'their dict from body/status/title/constants/environ[K]/environ.get(K, D), succeeding or raising KeyError for the '
-        'request at hand, also across the calls of a history) and the Response keywords content_type= / charset= (equal to '
+        'request at hand, also across the calls of a history), the factory exception_response(code, **kw) (class taken from '
+        'status_map, incl. codes shared by several classes) and the Response keywords content_type= / charset= (equal to '
         'or different from the negotiated form), plus code-point sweeps through html_escape and json.dumps; non-trivial = a body was rendered and at '
         'least one supplied text contains a character that an escape function or the Template scanner treats '
         'specially; distinct by full case')
@@ -41,7 +42,7 @@ ASSUMPTIONS = [
 TRUSTED = [
     'primitive table of harness/c19/translate.py (docstring; ~40 entries: Python/WebOb/Pyramid leaf semantics -> coq/Model/C19_base.v) and the translator itself (fail-closed, its output is type-checked by Coq and exercised by the correspondence run)',
     'raise sites outside httpexceptions.py: argument expressions regenerated for router / static view (3 sites) / append-slash view (translate.SITES; control flow around them pinned, static_view.add_slash_redirect translated whole); predicate-mismatch, secured-view and CSRF-origin messages are built in Coq (msite_gen with the formats regenerated from the source, msite_ref with reference formats) from configuration data / the last Origin token supplied by the harness; the functions around them stay pinned; a fail-closed scan of the whole package lists every function that builds an HTTP exception and demands a pin or translation for it',
-    'hand-written reference model coq/Model/C19.v (what the theorems are about); HTTPException.__str__, default_exceptionresponse_view, exception_response and the other raisers stay shape-pinned',
+    'hand-written reference model coq/Model/C19.v (what the theorems are about); HTTPException.__str__, default_exceptionresponse_view and the other raisers stay shape-pinned; exception_response and the module-level loop filling status_map are tied by an exact-shape fact (factsx.status_map_fact; the excluded classes are read from the source) and modelled by status_class of coq/Model/C19.v, validated by the factory stream',
     'string.Template.substitute, webob.html_escape (html.escape + xmlcharrefreplace), json.dumps(ensure_ascii), str.encode("utf-8"): modelled, validated by correspondence (code-point sweeps), not verified',
     'WebOb Response: constructor keywords content_type= / charset= / location=, the content_type setter (value + default charset for text/*, text/html and XML types, earlier parameters dropped), charset = None, header list: modelled in coq/Model/C19_base.v (kw_ctype, kw_charset, default_charset, texty), validated by correspondence; Accept negotiation: oracle',
 ]
@@ -66,7 +67,9 @@ LEVEL_TEXT = ('Machine-checked, for all texts, classes of the regenerated table,
               'exceptions are regenerated and proved equal to a reference in which a request property sits behind fixed text and '
               'no body template is passed; a Content-Type written on the object before the call (subscriber, callback, tween) '
               'never reaches the client of a rendering class; the predicate-mismatch / secured-view / CSRF-origin messages built '
-              'with the regenerated formats equal those built with the reference formats; an empty comment renders as no comment. '
+              'with the regenerated formats equal those built with the reference formats; an empty comment renders as no comment; '
+              '%s formatting inserts an argument verbatim and never rescans it; the class exception_response picks for a status '
+              'code has that code and is a public class of the table. '
               'Tie to the code: the translator (control flow mechanical, leaves through a primitive table), '
               'regenerated literals/class table, shape pins only for untranslated helpers, and a differential run of the '
               'extracted regenerated program against the real exceptions, Router and static/secured/predicated views.')
@@ -270,6 +273,8 @@ def gen_direct(rng):
     r = rng.random()
     if r < 0.14:
         gen_formatter(rng, case)
+    if rng.random() < 0.1 and _factory_ok(cls):
+        case['factory'] = True      # built by exception_response(code, **kw): the class comes from status_map
     if rng.random() < 0.14:
         if rng.random() < 0.85:
             case['ctype_kw'] = rng.choice(KW_TYPES)
@@ -283,6 +288,14 @@ KW_TYPES = ['text/html', 'application/json', 'text/plain', 'application/problem+
 KW_CHARSETS = ['UTF-8', 'latin-1', 'ascii', '', 'utf-16']
 FMT_KEYS = ['message', 'code', 'title', 'request_id', 'detail', 'x', 'message', 'é"<k>']
 FMT_ENV = ['HTTP_X_REQUEST_ID', 'HTTP_X_EVIL', 'REQUEST_METHOD', 'CUSTOM_VARIABLE', 'missing', 'PATH_INFO', 'my.key']
+
+
+def _factory_ok(cls):
+    """exception_response(code) may hand back another class with the same code (HTTPClientError -> HTTPBadRequest):
+    usable when every class with that code takes the same constructor arguments (location= or not) and the code is truthy"""
+    tb = _table()['classes']
+    code = tb[cls]['code']
+    return bool(code) and len({e['move'] for e in tb.values() if e['code'] == code}) == 1
 
 
 def gen_formatter(rng, case):
@@ -369,11 +382,12 @@ def gen_history(rng):
             calls[k] = calls[k] + [['HTTP_X_EVIL', gen_text(rng, 2, surrogates=False)]]
     c['via'] = 'history'
     c['calls'] = calls
+    c['factory'] = None        # histories construct the class directly
     return c
 
 
 OBJ_FIELDS = ('cls', 'detail', 'comment', 'explanation', 'location', 'headers', 'body_template')
-EXT_FIELDS = ('formatter', 'ctype_kw', 'charset_kw')
+EXT_FIELDS = ('formatter', 'ctype_kw', 'charset_kw', 'factory')
 
 
 def _as_direct(case, k):
@@ -428,7 +442,7 @@ def _is_opt_str(x):
 def valid(case):
     try:
         if case.get('via') == 'history':
-            return (isinstance(case.get('calls'), list) and 1 <= len(case['calls']) <= 4
+            return (not case.get('factory') and isinstance(case.get('calls'), list) and 1 <= len(case['calls']) <= 4
                     and set(case) - set(EXT_FIELDS) == {'via', 'cls', 'detail', 'comment', 'explanation', 'location',
                                                         'headers', 'body_template', 'calls'}
                     and all(valid(_as_direct(case, k)) for k in range(len(case['calls']))))
@@ -490,6 +504,8 @@ def _valid_ext(case):
                 return False
             if not all(isinstance(a, str) for a in src[1:]):
                 return False
+    if case.get('factory') not in (None, True) or (case.get('factory') and not _factory_ok(case['cls'])):
+        return False
     ck, cs = case.get('ctype_kw'), case.get('charset_kw')
     if ck is not None and not (ck == '' or (_token(ck) and '/' in ck and 'charset=' not in ck)):
         return False
@@ -558,6 +574,11 @@ def to_wire(case):
         return ['HTTPNotFound', [oracle_path_info(case['path'])], None, None, '', [], [], None,
                 oracle_offers('' if acc is None else acc), [None, None, None]]
     env = dict(map(tuple, case['environ']))
+    if case.get('factory'):
+        return [str(_table()['classes'][case['cls']]['code']), _opt(case['detail']), _opt(case['comment']),
+                _opt(case['explanation']), case['location'], [list(kv) for kv in case['headers']],
+                [list(kv) for kv in case['environ']], _opt(case['body_template']), oracle_offers(_accept_of(env)),
+                _ext_wire(case), 1]
     return [case['cls'], _opt(case['detail']), _opt(case['comment']), _opt(case['explanation']), case['location'],
             [list(kv) for kv in case['headers']], [list(kv) for kv in case['environ']], _opt(case['body_template']),
             oracle_offers(_accept_of(env)), _ext_wire(case)]
@@ -703,8 +724,12 @@ def _construct(case):
     if case.get('charset_kw') is not None:
         kw['charset'] = case['charset_kw'] or None
     try:
-        exc = cls(detail=case['detail'], headers=[tuple(kv) for kv in case['headers']] or None,
-                  comment=case['comment'], **kw)
+        if case.get('factory'):
+            exc = H.exception_response(_table()['classes'][case['cls']]['code'], detail=case['detail'],
+                                       headers=[tuple(kv) for kv in case['headers']] or None, comment=case['comment'], **kw)
+        else:
+            exc = cls(detail=case['detail'], headers=[tuple(kv) for kv in case['headers']] or None,
+                      comment=case['comment'], **kw)
         if case['explanation'] is not None:
             exc.explanation = case['explanation']
     except Exception as e:
@@ -925,6 +950,11 @@ def _ext_kinds(case, forms):
             k.append('kw-content_type-differs-from-negotiated')
     if case.get('charset_kw') is not None:
         k.append('kw-charset')
+    if case.get('factory'):
+        k.append('factory-exception_response')
+        tb = _table()['classes']
+        if len([e for e in tb.values() if e['code'] == tb[case['cls']]['code']]) > 1:
+            k.append('factory-code-shared-by-several-classes')
     return k
 
 
@@ -1083,6 +1113,14 @@ def targeted(broken, disagreements, rng):
                     out.append({'via': 'history', 'cls': cls, 'detail': t, 'comment': t, 'explanation': None,
                                 'location': 'http://example.com/' + t if tb['classes'][cls]['move'] else '',
                                 'headers': [], 'body_template': None, 'calls': envs})
+    for cls in ['HTTPNotFound', 'HTTPClientError', 'HTTPBadRequest', 'HTTPServerError', 'HTTPFound', 'HTTPForbidden']:
+        if cls in tb['classes'] and _factory_ok(cls):
+            for acc in ['text/html', 'application/json', None]:
+                env = [list(kv) for kv in BASE_ENV] + ([['HTTP_ACCEPT', acc]] if acc is not None else [])
+                out.append({'via': 'direct', 'cls': cls, 'detail': '<b>${br}"', 'comment': '<c>', 'explanation': None,
+                            'location': 'http://example.com/<' if tb['classes'][cls]['move'] else '', 'headers': [],
+                            'environ': env, 'body_template': None, 'formatter': None, 'ctype_kw': None, 'charset_kw': None,
+                            'factory': True})
     # the constructor's other keywords: json_formatter= (succeeding / failing for this request), content_type=, charset=
     fmts = [[['message', [0]], ['code', [1]], ['title', [2]], ['request_id', [4, 'HTTP_X_REQUEST_ID']]],
             [['message', [0]], ['rid', [5, 'HTTP_X_REQUEST_ID', 'none']]],
